@@ -38,6 +38,10 @@ def _all_num(x):
     return isinstance(x, (list, tuple)) and len(x) > 0 and all(_all_num(y) for y in x)
 
 
+#: external calls that change no value the evaluated fragment can see (their process-wide effect is C16-R5's business)
+_NO_VALUE_EFFECT = {"attrs.validators.set_disabled", "attr.validators.set_disabled", "warnings.simplefilter", "warnings.filterwarnings"}
+
+
 class Raised(Exception):
     def __init__(self, cls):
         super().__init__(cls)
@@ -358,6 +362,10 @@ class _Expr(SymEval):
                 if not all(isinstance(a, str) for a in args):
                     raise NotSymbolic(f"{r[1]} on non-constant arguments")
                 return _prog_call(_PURE_EXTERNALS[r[1]], *args)
+            if r is not None and r[0] == "external" and r[1] in _NO_VALUE_EFFECT:
+                for a in n.args:
+                    self.eval(a)
+                return None
         if isinstance(f, ast.Attribute) and isinstance(f.value, ast.Attribute) and f.value.attr == "linalg" and isinstance(root, ast.Name) and root.id in self.np_names:
             from .symarr import ProgramError
 
@@ -405,6 +413,11 @@ class _Expr(SymEval):
                 if f.attr == "empty":
                     return np.full(args[0], np.nan) if dt in (float, np.float64, np.float32, "float") else np.zeros(args[0], dtype=dt if not isinstance(dt, str) else {"int": int, "float": float}.get(dt, float))
                 return getattr(np, f.attr)(args[0], dtype=dt if not isinstance(dt, str) else {"int": int, "float": float}.get(dt, float))
+            if f.attr == "nditer" and len(args) == 1 and isinstance(args[0], np.ndarray) and not kw:
+                # element by element in memory order (the arrays of the evaluator are real numpy arrays)
+                if args[0].dtype == object:
+                    return [args[0][idx] for idx in np.ndindex(*args[0].shape)] if args[0].flags["C_CONTIGUOUS"] else [args[0].T[idx] for idx in np.ndindex(*args[0].T.shape)]
+                return [x.item() for x in np.nditer(args[0])]
             if f.attr == "full" and len(args) >= 2 and isinstance(args[1], (int, float)) and not isinstance(args[1], bool):
                 return np.full(args[0], float(args[1]) if kw.get("dtype") in (None, float) else args[1])
             PURE_NUMERIC = ("tril_indices", "triu_indices", "argsort", "sort", "unique", "arange", "cumsum", "where", "sum", "max", "min", "amax", "amin", "abs", "absolute", "sqrt", "prod", "any", "all", "nonzero", "argmax", "argmin", "diff", "lexsort", "searchsorted", "count_nonzero", "sign", "floor", "ceil")
@@ -462,6 +475,14 @@ class _Expr(SymEval):
                     if base.dtype == object:
                         return _opaque("clip", base)
                     return base.clip(*args, **kw)
+            if hasattr(base, "__next__") and not isinstance(base, (Sym, np.ndarray, Rec, TextSink)) and f.attr in ("read", "readline", "readlines") and not n.args:
+                # the model input file (an iterator over constant lines) read directly
+                if f.attr == "readline":
+                    return next(base, "")
+                rest = list(base)
+                if not all(isinstance(x, str) for x in rest):
+                    raise NotSymbolic("read() of a non-text stream")
+                return "".join(rest) if f.attr == "read" else rest
             if isinstance(base, TextSink):
                 if f.attr == "write" and len(n.args) == 1:
                     txt = self.eval(n.args[0])
@@ -897,7 +918,31 @@ class AccessorEval:
         if isinstance(st, ast.Pass):
             return
         if isinstance(st, ast.For):
-            seq = self._eval(st.iter, local)
+            seq = None
+            if isinstance(st.iter, ast.Call) and isinstance(st.iter.func, ast.Name) and st.iter.func.id in ("zip", "enumerate") and st.iter.func.id not in local and not st.iter.keywords:
+                parts = [self._eval(a, local) for a in st.iter.args]
+                if any(isinstance(p_, Rec) for p_ in parts):
+                    # zip / enumerate over the model LineIterator: items are pulled source by source, one round at
+                    # a time, exactly as the builtins do (a round stops at the first exhausted source)
+                    owner = self
+
+                    def _pull(rec):
+                        while True:
+                            try:
+                                yield owner.call_method(rec, "__next__", [], {})
+                            except Raised as r_:
+                                if r_.args[0] == "StopIteration":
+                                    return
+                                raise
+
+                    srcs = [_pull(p_) if isinstance(p_, Rec) else iter([p_[i] for i in range(p_.shape[0])] if isinstance(p_, np.ndarray) else list(p_)) for p_ in parts]
+                    if st.iter.func.id == "enumerate":
+                        import itertools
+
+                        srcs = [itertools.count(0), srcs[0]]
+                    seq = zip(*srcs)
+            if seq is None:
+                seq = self._eval(st.iter, local)
             if isinstance(seq, Rec):
                 # an instance with __next__ (the model LineIterator): items are drawn one by one, so that a `break`
                 # leaves the rest in the iterator
